@@ -204,7 +204,12 @@ def handle : Handler := fun input impl =>
     else
     let req := (getN? o "req").getD 0
     let resp := (getN? o "resp").getD 0
-    let v := verdict (prs.map fun p => (p.cfg, p.cnt)) req resp
+    let v0 := verdict (prs.map fun p => (p.cfg, p.cnt)) req resp
+    -- a pool that ended normally has seen every started instance leave `Run` (`C03_pool_nil_all_returned`): the engine's
+    -- InstanceFinish counter has caught up with InstanceStart
+    let v := if !v0.startsWith "fail" && !runaway && getS o "finished" != getS o "started" then
+               s!"fail:metrics:InstanceFinish {getS o "finished"} != InstanceStart {getS o "started"} after a normal end"
+             else v0
     -- the harness cut a run that went on far beyond what a finite profile allows: what the counters say at that moment
     if runaway then ("-", if v.startsWith "fail:unfired" || v.startsWith "fail:release" || v.startsWith "fail:use" then v
                           else s!"fail:abnormal-end:runaway, the pool does not end ({getS o "started"} instances)") else
